@@ -466,8 +466,8 @@ def check(rep):
     # batches keep the full-hex outputs in memory bounded
     nbatch, n_tgt, n_gen, nev = (1, 450, 250, 120) if quick else (12, 600, 250, 200)
     # the extracted model needs ~4 ms per event: the model/implementation diff takes the corpus, every
-    # second targeted and every third generic history (thorough: every 4th / 6th of 10 000)
-    m_tgt, m_gen = (2, 3) if quick else (4, 6)
+    # third targeted and every fifth generic history (thorough: every 4th / 6th of 10 000)
+    m_tgt, m_gen = (3, 5) if quick else (4, 6)
     rep.cov['rule'] = ('corpus first (corpus/C14, corpus/SRV); targeted histories (C14Gen: lazy / immediate / mixed sessions, '
                        'duplicates of held queries with new ids, other source ports/addresses, same id, changed case, other type; '
                        'ping bursts, tun packets for the session, sweeps, id-0 queries, raw-mode switch followed by DNS queries, '
